@@ -32,7 +32,7 @@ def cases(tier):
         for order in (("A", "B"), ("B", "A")):
             cs.append(F.pair(ch, end=end, order=order))
     # delay-to-pull with several steps, with and without an initial pull of the consumer
-    for ch in ([["P", 2, 0]], [["P", 3, 0.5]], [["P", 2, 0], ["F", 1]], [["S", 2], ["P", 2, 0.5]]):
+    for ch in ([["P", 2, 0]], [["P", 3, 0.5]], [["P", 2, 0], ["F", 1]], [["S", 2], ["P", 2, 0.5]], [["P", 1, 1]], [["P", 2, 1]], [["P", 1, 2]], [["P", 1, 1], ["F", 1]]):
         for pi in (True, False):
             cs.append(F.pair(ch, end=end, pull_initial=pi))
             cs.append(F.pair(ch, end=end, pull_initial=pi, order=("B", "A"), starts=(0, 1)))
